@@ -211,7 +211,7 @@ theorem resolveInline_rel {mm : SMap (Name × Nat)} :
     cases h
     exact .cons ⟨rhs, rfl, resolveInlineRhs_rel h1⟩ (resolveInline_rel h2)
 
-theorem resolveSym_rel {se : Bool} {terms : SMap Term} {nts : List NonTerm} {p : GProd} {n : Nat} {a a' : RAssign}
+theorem resolveSym_rel {se : RFlags} {terms : SMap Term} {nts : List NonTerm} {p : GProd} {n : Nat} {a a' : RAssign}
     (h : resolveSym se terms nts p n a = .ok a') : RhsRel a a' ∧ a'.index.isSome := by
   unfold resolveSym at h
   split at h
@@ -223,19 +223,21 @@ theorem resolveSym_rel {se : Bool} {terms : SMap Term} {nts : List NonTerm} {p :
       · cases h
       · split at h
         · cases h
-          exact ⟨⟨rfl, rfl, rfl⟩, rfl⟩
         · split at h
           · cases h
+            exact ⟨⟨rfl, rfl, rfl⟩, rfl⟩
           · split at h
             · cases h
-            · cases h
-              exact ⟨⟨rfl, rfl, rfl⟩, rfl⟩
+            · split at h
+              · cases h
+              · cases h
+                exact ⟨⟨rfl, rfl, rfl⟩, rfl⟩
     · split at h
       · cases h
         exact ⟨⟨rfl, rfl, rfl⟩, rfl⟩
       · cases h
 
-theorem resolveRhs_rel {se : Bool} {terms : SMap Term} {nts : List NonTerm} {p : GProd} {n : Nat} :
+theorem resolveRhs_rel {se : RFlags} {terms : SMap Term} {nts : List NonTerm} {p : GProd} {n : Nat} :
     ∀ {l l' : List RAssign}, resolveRhs se terms nts p n l = .ok l' →
       All2 RhsRel l l' ∧ ∀ a, a ∈ l' → a.index.isSome
   | [], l', h => by
@@ -254,7 +256,7 @@ theorem resolveRhs_rel {se : Bool} {terms : SMap Term} {nts : List NonTerm} {p :
     · exact i1
     · exact i2 b hb
 
-theorem resolveRefs_rel {se : Bool} {terms : SMap Term} {nts : List NonTerm} :
+theorem resolveRefs_rel {se : RFlags} {terms : SMap Term} {nts : List NonTerm} :
     ∀ {ps ps' : List GProd}, resolveRefs se terms nts ps = .ok ps' →
       All2 ProdRel ps ps' ∧ ∀ p, p ∈ ps' → ∀ a, a ∈ p.rhs → a.index.isSome
   | [], ps', h => by
